@@ -263,8 +263,11 @@ def m_types(ctx, case):
                     ctx.violation("integer-arguments-differ-from-float", fn=f, v=xs[k], H=H[k], int_result=repr(ri[1:])[:60], float_result=float(rs[1]))
         # narrow integer dtypes (what a down-cast data frame column holds): same values, same answers
         if "mach2" not in f and all(float(t).is_integer() for t in xs) and all(float(h).is_integer() for h in H):
-            for dt_v, dt_h in (("int16", "int32"), ("int32", "int16"), ("uint16", "int32"), ("int64", "int64")):
+            for dt_v, dt_h in (("int16", "int32"), ("int32", "int16"), ("uint16", "int32"), ("int64", "int64"), ("uint16", "uint16"),
+                               ("int32", "uint32"), ("uint32", "uint64")):
                 if dt_h == "int16" and max(abs(h) for h in H) > 32000:
+                    continue
+                if dt_h.startswith("uint") and min(H) < 0:
                     continue
                 ri = call(F, np.array(xs, dtype=dt_v), np.array(H, dtype=dt_h))
                 ctx.ev()
@@ -366,6 +369,8 @@ def cases(ctx):
         V = [rng.choice((float(rng.randint(1, 450)), rng.uniform(0.5, 450), 1.0, 450.0)) for _ in range(n)]
         if k % 3 == 0:   # all-integral case for the integer-dtype comparisons
             H = [float(rng.choice((-500, -100, 0, 10999, 11000, 11001, 20000, rng.randint(-500, 20000)))) for _ in range(n)]
+            if k % 2 == 0:
+                H = [abs(h) for h in H]      # non-negative altitudes: also representable in unsigned dtypes
             V = [float(rng.choice((1, 181, 182, 255, 256, 257, 450, rng.randint(1, 450)))) for _ in range(n)]
         yield "types", {"H": H, "v": V}
     # geo
